@@ -10,8 +10,12 @@
    node is the last node; four branches of remove). `repr l s` (Proofs/CatalogProofs.v) says that
    the pointer structure s holds the list l. Precondition of push_back (the two BOOST_ASSERTs):
    `push_pre`; the theorems are stated under it, i.e. for a node that is not in the list.
-   The model is tied to the C++ by checks/C18.py (differential runs of harness/h3 against the
-   extracted model, and an independent oracle). *)
+   The model is tied to the C++ in two ways.  (1) TRANSLATION: translators/staticlist.py parses the bodies of
+   push_back / remove / clear, both iterators and empty() out of static_list.hpp on every run and lowers them,
+   statement by statement, to the pointer language of Model/MiniPtr.v (Gen/GenStaticList.v); the C18_source_*
+   theorems of Properties_C18_source.v prove that the interpreted translated code IS the model, and restate the reachability
+   theorem directly on the translated code.  (2) CORRESPONDENCE: checks/C18.py runs harness/h3 (the real
+   static_list and the real registration objects) against the extracted model, with an independent oracle. *)
 From Coq Require Import List Arith Lia Bool.
 Import ListNotations.
 From Y2 Require Import Model.Catalog Proofs.CatalogProofs.
